@@ -37,6 +37,9 @@ pub enum Oracle {
     /// linearizability w.r.t. the reference model (real-time order respected):
     /// used where a statement speaks about instants (C08, C10, C11, C14, C19)
     Linear,
+    /// a timed operation that ended with a closed / disconnected error was
+    /// released by that event and not by its own (far) deadline
+    Released,
 }
 
 #[derive(Clone, Copy, PartialEq, Eq, Debug)]
@@ -155,6 +158,7 @@ pub fn check(o: Oracle, p: &Program, h: &History, model: Option<&Explored>) -> R
         Oracle::Timed => timed(&f),
         Oracle::Drain => drain(&f),
         Oracle::Linear => linear(p, h),
+        Oracle::Released => released(&f),
     }
 }
 
@@ -415,8 +419,8 @@ fn capacity(f: &Facts) -> Result<(), String> {
                             is_recv[s as usize] = false;
                             begin[s as usize] = None;
                         }
-                        Op::Poll(s, _) | Op::StreamNext(s) if is_recv[s as usize] => {
-                            let s = s as usize;
+                        Op::Poll(s, _) | Op::StreamNext(s) if is_recv[(s & 0x7f) as usize] => {
+                            let s = (s & 0x7f) as usize;
                             let b = *begin[s].get_or_insert(c.inv);
                             let n = vals_of(c).len();
                             if n > 0 {
@@ -653,6 +657,33 @@ fn counts(f: &Facts) -> Result<(), String> {
                 return Err(format!("receiver_count() = {n} but only {max_r} receiver handles ever existed"))
             }
             _ => {}
+        }
+    }
+    Ok(())
+}
+
+/// Deadlines of at least this many ticks are "far": the peers of the programs
+/// that use them finish within a few dozen scheduling points, and the waiting
+/// loop of a timed operation yields once per tick, so a correct
+/// implementation notices the close / disconnect long before the deadline.
+pub const FAR: u64 = 150;
+
+fn released(f: &Facts) -> Result<(), String> {
+    for c in &f.h.calls {
+        let d = match c.op {
+            Op::SendT(d) | Op::SendOT(d) | Op::RecvT(d) if d != 255 => d as u64,
+            _ => continue,
+        };
+        if d < FAR {
+            continue;
+        }
+        if matches!(c.res, Res::Err(E::Closed) | Res::Err(E::SendClosed) | Res::Err(E::ReceiveClosed))
+            && c.clk_ret >= c.clk_inv + d
+        {
+            return Err(format!(
+                "thread {} op {} ({:?}) was not released by the close / disconnect: it reported {:?} only at virtual time {}, when its own deadline {} had passed (started at {})",
+                c.thread, c.idx, c.op, c.res, c.clk_ret, c.clk_inv + d, c.clk_inv
+            ));
         }
     }
     Ok(())
